@@ -1,6 +1,8 @@
 package main
 
 import (
+	"github.com/ipld/go-ipld-prime"
+	"github.com/ipld/go-ipld-prime/codec/dagjson"
 	"strings"
 
 	"github.com/ipld/go-ipld-prime/node/basicnode"
@@ -35,7 +37,32 @@ func goLike(p, s string) string {
 	if err != nil {
 		return "err"
 	}
-	ok, _ := pol.Match(basicnode.NewString(s))
+	n := basicnode.NewString(s)
+	ok, _ := pol.Match(n)
+	// the same statement decoded from IPLD and from DAG-JSON must decide the same way
+	if nd, err := pol.ToIPLD(); err == nil {
+		if p2, err := policy.FromIPLD(nd); err == nil {
+			if ok2, _ := p2.Match(n); ok2 != ok {
+				return "roundtrip: built=" + bstr(ok) + " decoded=" + bstr(ok2)
+			}
+		} else {
+			return "roundtrip: built policy does not decode"
+		}
+		if js, err := ipld.Encode(nd, dagjson.Encode); err == nil {
+			if p3, err := policy.FromDagJson(string(js)); err == nil {
+				if ok3, _ := p3.Match(n); ok3 != ok {
+					return "roundtrip: built=" + bstr(ok) + " dagjson=" + bstr(ok3)
+				}
+			}
+		}
+	}
+	// and again on the first object after it was used on other strings
+	for _, o := range []string{"", "*", s + "x", "\\", p} {
+		pol.Match(basicnode.NewString(o))
+	}
+	if ok4, _ := pol.Match(n); ok4 != ok {
+		return "history: fresh=" + bstr(ok) + " later=" + bstr(ok4)
+	}
 	return bstr(ok)
 }
 
